@@ -47,3 +47,32 @@ def register(claim):
           "Class membership is monitored on sampled draws only (tolerance: relative 1e-9 as documented); the "
           "documented exceptions are exempt from the twin comparison only.",
           "DESIGN.md section 5, C10")
+    claim("C01", "exploration",
+          f"{SIM}: seeded operation histories (reveal / un-reveal / bulk reset / recompute, with recomputes torn by a "
+          "simulated KeyboardInterrupt, scribbled bounds and memo eviction) on one long-lived object; containment "
+          "invariant against the hidden game after every completed compute",
+          "Claims the history clause: whatever sequence of operations and cancelled recomputes led to a knowledge "
+          "set K containing the minimal information, both SA computers give lower <= v <= upper, lower <= upper and "
+          "known rows exactly v. Exact comparisons on integer/dyadic games, 1e-9 relative tolerance on float games. "
+          "The for-all-games/for-all-K part is only sampled along the histories drawn (n <= 6, <= 40 operations).",
+          "Hidden games come from a harness construction checked by an independent superadditivity predicate (or a "
+          "registered family re-checked the same way).",
+          "DESIGN.md section 5, C01")
+    claim("C03", "exploration",
+          f"{SIM}: twin objects (one per computer) fed identical histories, several player counts interleaved in one "
+          "simulated process, memo eviction / torn recompute / scribbled bounds injected on one twin",
+          "Differential oracle between the two computers after every completed compute of a pair, bit-identical on "
+          "exactly representable games and within 1e-9 relative tolerance otherwise, under seeded interleavings of "
+          "objects with different n so that the per-n memo is populated, reused and evicted in every order.",
+          "n = 2..6 in the quick tier, ..8 in the thorough tier; histories <= 50 operations.",
+          "DESIGN.md section 5, C03")
+    claim("C17", "exploration",
+          f"{SIM}: refinement of a dictionary reference model over seeded multi-handle histories (original, copies, "
+          "negations) with operations interleaved across aliased handles",
+          "After every one of 10..50 interleaved public operations every live handle is compared field by field with "
+          "its dictionary model through every public getter; untouched handles must stay byte-identical; negation "
+          "is checked as swap-and-negate and as an involution. No fault kind applies to this property (stated in "
+          "DESIGN.md); simulation contributes interleaving across aliased handles and minimised replays.",
+          "Bounds of unknown coalitions are compared only after being written through a bound setter; a false "
+          "precondition may be rejected (table unchanged) or accepted (then it must act as set / unset).",
+          "DESIGN.md section 5, C17")
